@@ -128,6 +128,12 @@ class SymBool:
     def __init__(self, t):
         self.t = t
 
+    def __deepcopy__(self, memo):
+        return self
+
+    def __copy__(self):
+        return self
+
     def __bool__(self):
         return _CUR.branch(self.t)
 
@@ -252,6 +258,12 @@ def _cmp(a, b, op):
 class _SymNum:
     __slots__ = ()
     __array_priority__ = 1000
+
+    def __deepcopy__(self, memo):
+        return self
+
+    def __copy__(self):
+        return self
 
     def __lt__(self, o):
         return _cmp(self, o, '<')
@@ -862,6 +874,15 @@ class PathCtx:
         # feasibility is checked lazily (_ensure_model raises PathAbort)
         self._ensure_model()
 
+    def constrain(self, c):
+        """input constraint (part of the stated bound); no feasibility check"""
+        if isinstance(c, (bool, _np.bool_)):
+            if not c:
+                raise PathAbort('constrain(False)')
+            return
+        self.solver.add(bool_term(c))
+        self.model = None
+
     def event(self, name, n=1):
         self.events[name] = self.events.get(name, 0) + n
 
@@ -1007,7 +1028,7 @@ def run_path(fn, kwargs, prefix, opts, collect_funcs=False, func_filter=None):
         res['error'] = str(e)
     except PathLimit as e:
         res['status'] = 'limit'
-        res['error'] = str(e)
+        res['error'] = str(e) + '\n' + traceback.format_exc(limit=-30)
     except Concretization as e:
         res['status'] = 'error'
         res['error'] = 'Concretization: ' + str(e) + '\n' + traceback.format_exc(limit=12)
@@ -1036,6 +1057,15 @@ def run_path(fn, kwargs, prefix, opts, collect_funcs=False, func_filter=None):
         'funcs': sorted(funcs),
         'notes': ctx.notes,
     })
+    if res['status'] == 'limit':
+        try:
+            _CUR = ctx
+            ctx.max_decisions = 10 ** 9
+            res['error'] += '\nMODEL: %r' % (ctx.get_model(),)
+        except BaseException:
+            pass
+        finally:
+            _CUR = None
     if res['status'] == 'ok' and opts.get('want_sample'):
         try:
             _CUR = ctx
